@@ -87,6 +87,9 @@ theorem step1Init_inv : S1Inv (fixedNamesOf y86FixedFunctions) y86W0 (step1Init 
   banks := by
     have : (step1Init y86FixedFunctions).banksRaw = [] := by decide +kernel
     rw [this]; intro b hb; simp at hb
+  aAssigned := by
+    have : (step1Init y86FixedFunctions).assignments = [] := by decide +kernel
+    rw [this]; intro k hk; simp [AMap.keys] at hk
 
 theorem step1Init_clean : (step1Init y86FixedFunctions).errors = [] := by decide +kernel
 
@@ -113,15 +116,15 @@ theorem goodAction_ok (fl : Flags) (assignments : AMap Ex) (W : AMap Width) (con
     | writeMem _ _ _ _ => trivial
     | setStatus _ => trivial
 
-/-- **Accepted ⇒ sound.**  `known` is the list of names whose values exist before the first action of a cycle
-    (register outputs and constants). -/
-theorem Program_new_sound (fl : Flags) (cls : CharClass) (o : Orders) (stmts : List Stmt) (p : Program)
-    (ho : OrdersOK o) (hwf : StmtsWF stmts)
-    (h : Program.new fl cls o y86FixedFunctions stmts = .ok p) :
-    ∃ (W : AMap Width) (known : List String),
-      ProgramOK fl W.toCtx p.constants.toEnv p known ∧
-      ∃ vals, p.initialValues = .ok vals ∧ ValsOK W.toCtx vals ∧
-        (∀ n ∈ known, vals.contains n = true) ∧ (∀ b ∈ p.banks, BankOK W.toCtx vals b) := by
+/-- what acceptance by `Program::new` establishes about the intermediate tables -/
+theorem Program_new_decompose (fl : Flags) (cls : CharClass) (o : Orders) (stmts : List Stmt) (p : Program)
+    (hwf : StmtsWF stmts) (h : Program.new fl cls o y86FixedFunctions stmts = .ok p) :
+    ∃ (s1 : Step1) (constants : AMap WireValue) (s3 : Step3) (known : List String),
+      TablesHyp (fixedNamesOf y86FixedFunctions) y86W0 s1 constants s3 ∧
+      (∀ n, n ∈ known ↔ n ∈ bankOuts s3.banks ∨ n ∈ (constPairs s1.constantsRaw.keys constants).map (·.1)) ∧
+      assignmentsToActions fl o s1.assignments (finalWires s1 constants s3) known y86FixedFunctions s1.declared constants = .ok p.actions ∧
+      p.constants = constants ∧ p.banks = s3.banks ∧
+      (∀ n ∈ s1.assigned, s1.constantsRaw.contains n = false) := by
   unfold Program.new at h
   simp only at h
   -- step 1
@@ -134,9 +137,18 @@ theorem Program_new_sound (fl : Flags) (cls : CharClass) (o : Orders) (stmts : L
   split at h
   · simp at h
   · rename_i herrs1
-    have hs1clean : s1.errors = [] := by
-      simp only [Bool.not_eq_true', List.isEmpty_eq_false_iff, ne_eq, Decidable.not_not, List.append_eq_nil_iff] at herrs1
-      exact herrs1.1.1
+    simp only [Bool.not_eq_true', List.isEmpty_eq_false_iff, ne_eq, Decidable.not_not, List.append_eq_nil_iff] at herrs1
+    have hs1clean : s1.errors = [] := herrs1.1.1
+    have hassignedConst : ∀ n ∈ s1.assigned, s1.constantsRaw.contains n = false := by
+      intro n hn
+      have h2 := herrs1.1.2
+      by_cases hc : s1.constantsRaw.contains n = true
+      · exfalso
+        have : (⟨.AssignedConstant, [n]⟩ : Diag) ∈ s1.assigned.flatMap (fun n =>
+            if s1.constantsRaw.contains n then [(⟨.AssignedConstant, [n]⟩ : Diag)] else []) :=
+          List.mem_flatMap.mpr ⟨n, hn, by rw [if_pos hc]; simp⟩
+        rw [h2] at this; simp at this
+      · simpa using hc
     -- step 2
     split at h
     · simp at h
@@ -151,13 +163,12 @@ theorem Program_new_sound (fl : Flags) (cls : CharClass) (o : Orders) (stmts : L
         have hs3clean : s3.errors = [] := by
           simp only [Bool.not_eq_true', List.isEmpty_eq_false_iff, ne_eq, Decidable.not_not, List.append_eq_nil_iff] at herrs3
           exact herrs3.1
-        have hs3f : S3Facts s1.declared s3 {} := by
+        have hs3f : S3Facts s1.declared (fun n => s1.assignments.contains n = false) s3 {} := by
           rw [← hs3]
           exact step3_facts fl cls s1 constants (fun b hb r hr => (s1inv.banks b hb r hr).1) (by rw [hs3]; exact hs3clean)
         split at h
         · simp at h
-        · -- the tables
-          have hyp : TablesHyp (fixedNamesOf y86FixedFunctions) y86W0 s1 constants s3 :=
+        · have hyp : TablesHyp (fixedNamesOf y86FixedFunctions) y86W0 s1 constants s3 :=
             { s1inv := s1inv, s1clean := hs1clean, cok := hcok, ckeys := hckeys, s3f := hs3f
               fnShape := by
                 intro n hn
@@ -174,53 +185,68 @@ theorem Program_new_sound (fl : Flags) (cls : CharClass) (o : Orders) (stmts : L
           · rename_i actions hact
             simp only [Except.ok.injEq] at h
             subst h
-            obtain ⟨hsched, hgood, _⟩ := assignmentsToActions_sound fl o s1.assignments (finalWires s1 constants s3) known
-              y86FixedFunctions s1.declared constants actions ho y86Fixed_table s1inv.aKeys hact
-            have hfix : ∀ f ∈ y86FixedFunctions, ∀ n w, f.outWire = some (n, w) →
-                (finalWires s1 constants s3).get? n = some (.bits w) := by
-              intro f hf n w hout
-              have hn : n ∈ fixedNamesOf y86FixedFunctions := by
-                have := List.all_eq_true.mp y86_out_in_names f hf
-                rw [hout] at this
-                simpa using this
-              rw [finalWires_fixed hyp n hn]
-              have := List.all_eq_true.mp y86W0_out f hf
-              rw [hout] at this
-              simpa using this
-            refine ⟨finalWires s1 constants s3, known, ⟨finalWires_ctxOK hyp, ?_, hsched⟩, ?_⟩
-            · intro a ha
-              exact goodAction_ok fl s1.assignments _ constants a s1inv.aWf hfix (hgood a ha)
-            · -- the initial state
-              have hv0 : ValsOK (finalWires s1 constants s3).toCtx constants := by
-                intro n v hv
-                exact ⟨finalWires_const hyp n v hv, (hcok n v hv).2⟩
-              obtain ⟨vals, g1, g2, g3, g4⟩ := banks_fold_ok (finalWires s1 constants s3).toCtx s3.banks constants
-                (banks_ready hyp) hv0
-              refine ⟨vals, g1, g2, ?_, ?_⟩
-              · intro n hn
-                rw [← hknown, mem_foldl_setInsert, mem_foldl_setInsert] at hn
-                rcases hn with (h1 | h1) | h1
-                · simp at h1
-                · simp only [bankOuts, List.mem_flatMap, List.mem_map] at h1
-                  obtain ⟨b, hb, sg, hsg, rfl⟩ := h1
-                  exact ((g4 b hb).1 sg hsg).2
-                · obtain ⟨pr, hpr, rfl⟩ := List.mem_map.mp h1
-                  obtain ⟨v, _, hg, _⟩ := (mem_constPairs _ _ _).mp hpr
-                  exact g3 _ ((AMap.contains_iff_lookup _ _).mpr ⟨v, hg⟩)
-              · intro b hb
-                have hbs := (hs3f.banks b hb).sigs
-                obtain ⟨gs, gst, gbu⟩ := g4 b hb
-                exact {
-                  defaults := by
-                    intro q hq
-                    obtain ⟨sg, hsg, e1, e2, e3⟩ := hbs.dflt q hq
-                    refine ⟨?_, e3, ?_⟩
-                    · rw [← e1, e2]; exact (finalWires_sig hyp b hb sg hsg).2
-                    · rw [← e1]; exact (gs sg hsg).2
-                  signals := by
-                    intro sg hsg
-                    obtain ⟨w1, w2⟩ := finalWires_sig hyp b hb sg hsg
-                    exact ⟨by show (finalWires s1 constants s3).get? sg.1 = (finalWires s1 constants s3).get? sg.2.1; rw [w1, w2],
-                      (gs sg hsg).1, (gs sg hsg).2⟩
-                  stall := gst
-                  bubble := gbu }
+            refine ⟨s1, constants, s3, known, hyp, ?_, hact, rfl, rfl, hassignedConst⟩
+            intro n
+            rw [← hknown, mem_foldl_setInsert, mem_foldl_setInsert]
+            simp
+
+/-- **Accepted ⇒ sound.**  `known` is the list of names whose values exist before the first action of a cycle
+    (register outputs and constants). -/
+theorem Program_new_sound (fl : Flags) (cls : CharClass) (o : Orders) (stmts : List Stmt) (p : Program)
+    (ho : OrdersOK o) (hwf : StmtsWF stmts)
+    (h : Program.new fl cls o y86FixedFunctions stmts = .ok p) :
+    ∃ (W : AMap Width) (known : List String),
+      ProgramOK fl W.toCtx p.constants.toEnv p known ∧
+      ∃ vals, p.initialValues = .ok vals ∧ ValsOK W.toCtx vals ∧
+        (∀ n ∈ known, vals.contains n = true) ∧ (∀ b ∈ p.banks, BankOK W.toCtx vals b) := by
+  obtain ⟨s1, constants, s3, known, hyp, hknown, hact, hpc, hpb, _⟩ := Program_new_decompose fl cls o stmts p hwf h
+  obtain ⟨hsched, hgood, _⟩ := assignmentsToActions_sound fl o s1.assignments (finalWires s1 constants s3) known
+    y86FixedFunctions s1.declared constants p.actions ho y86Fixed_table hyp.s1inv.aKeys hact
+  have hfix : ∀ f ∈ y86FixedFunctions, ∀ n w, f.outWire = some (n, w) →
+      (finalWires s1 constants s3).get? n = some (.bits w) := by
+    intro f hf n w hout
+    have hn : n ∈ fixedNamesOf y86FixedFunctions := by
+      have := List.all_eq_true.mp y86_out_in_names f hf
+      rw [hout] at this
+      simpa using this
+    rw [finalWires_fixed hyp n hn]
+    have := List.all_eq_true.mp y86W0_out f hf
+    rw [hout] at this
+    simpa using this
+  refine ⟨finalWires s1 constants s3, known, ⟨finalWires_ctxOK hyp, ?_, hsched⟩, ?_⟩
+  · intro a ha
+    rw [hpc]
+    exact goodAction_ok fl s1.assignments _ constants a hyp.s1inv.aWf hfix (hgood a ha)
+  · -- the initial state
+    have hv0 : ValsOK (finalWires s1 constants s3).toCtx constants := by
+      intro n v hv
+      exact ⟨finalWires_const hyp n v hv, (hyp.cok n v hv).2⟩
+    obtain ⟨vals, g1, g2, g3, g4⟩ := banks_fold_ok (finalWires s1 constants s3).toCtx s3.banks constants
+      (banks_ready hyp) hv0
+    refine ⟨vals, by rw [initialValues_eq, hpc, hpb]; exact g1, g2, ?_, ?_⟩
+    · intro n hn
+      rcases (hknown n).mp hn with h1 | h1
+      · simp only [bankOuts, List.mem_flatMap, List.mem_map] at h1
+        obtain ⟨b, hb, sg, hsg, rfl⟩ := h1
+        exact ((g4 b hb).1 sg hsg).2
+      · obtain ⟨pr, hpr, rfl⟩ := List.mem_map.mp h1
+        obtain ⟨v, _, hg, _⟩ := (mem_constPairs _ _ _).mp hpr
+        exact g3 _ ((AMap.contains_iff_lookup _ _).mpr ⟨v, hg⟩)
+    · intro b hb
+      rw [hpb] at hb
+      have hbs := (hyp.s3f.banks b hb).sigs
+      obtain ⟨gs, gst, gbu⟩ := g4 b hb
+      exact {
+        defaults := by
+          intro q hq
+          obtain ⟨sg, hsg, e1, e2, e3⟩ := hbs.dflt q hq
+          refine ⟨?_, e3, ?_⟩
+          · rw [← e1, e2]; exact (finalWires_sig hyp b hb sg hsg).2
+          · rw [← e1]; exact (gs sg hsg).2
+        signals := by
+          intro sg hsg
+          obtain ⟨w1, w2⟩ := finalWires_sig hyp b hb sg hsg
+          exact ⟨by show (finalWires s1 constants s3).get? sg.1 = (finalWires s1 constants s3).get? sg.2.1; rw [w1, w2],
+            (gs sg hsg).1, (gs sg hsg).2⟩
+        stall := gst
+        bubble := gbu }
